@@ -186,6 +186,48 @@ fn c04_grids(r: &mut Runner, thorough: bool) {
         repr += p;
     }
     r.grid(&format!("c04-boundary-lattice-{}^3", lat.len()), evals, repr.min(evals), repr, evals - repr, vec![json!({"staked": lat[lat.len() - 1].to_string(), "lst": lat[lat.len() - 2].to_string(), "amount": "1"})], viols);
+
+    // products next to word boundaries: for every lattice value a and boundary B the third operand is
+    // B/a and its neighbours, in each of the three positions
+    let thirds: Vec<u128> = vec![1, 2, 3, 7, 1_000_000, 1_000_000_007, 1 << 64, 1_000_000_000_000_000_000_000_000_000];
+    let res: Vec<(Vec<(Violation, Value)>, u64, u64)> = lat
+        .par_iter()
+        .filter(|a| **a > 0)
+        .map(|a| {
+            let mut vs = vec![];
+            let mut cnt = 0u64;
+            let mut repr = 0u64;
+            for b in [1u128 << 32, 1 << 64, 1 << 96, 1 << 127, u128::MAX] {
+                let q = b / *a;
+                for x in [q.saturating_sub(1), q, q.saturating_add(1)] {
+                    for c in &thirds {
+                        for (t, l, amt) in [(*c, *a, x), (*a, *c, x), (*c, x, *a), (x, *c, *a), (*a, x, *c), (x, *a, *c)] {
+                            let (v, o) = c04_case(t, l, amt);
+                            cnt += 1;
+                            if o != 0 {
+                                repr += 1;
+                            }
+                            if let Some(v) = v {
+                                if !vs.iter().any(|x: &(Violation, Value)| x.0.key == v.0.key) {
+                                    vs.push(v);
+                                }
+                            }
+                        }
+                    }
+                }
+            }
+            (vs, cnt, repr)
+        })
+        .collect();
+    let mut viols = vec![];
+    let mut evals = 0;
+    let mut repr = 0;
+    for (v, c, p) in res {
+        viols.extend(v);
+        evals += c;
+        repr += p;
+    }
+    r.grid("c04-products-next-to-word-boundaries", evals, repr.min(evals), repr, evals - repr, vec![json!({"staked": "3", "lst": "4294967296", "amount": "4294967297"})], viols);
 }
 
 /// (b) through execute: minimum, zero mint, expected_mint_amount in every seeded rate regime
@@ -305,7 +347,19 @@ pub fn resume_lattice(r: &mut Runner, prop: &'static str, thorough: bool) {
             if !ap.out.ok {
                 return (cnt, okc, vs);
             }
-            for x in &vals {
+            // besides the lattice: amounts whose product with either total sits next to a word boundary
+            let mut amounts: Vec<u128> = vals.clone();
+            for b in [1u128 << 64, 1 << 96, 1 << 127, u128::MAX] {
+                for t in [*n, *l] {
+                    let q = b / t;
+                    for d in [q.saturating_sub(1), q, q.saturating_add(1)] {
+                        if d >= 1 && d <= big && !amounts.contains(&d) {
+                            amounts.push(d);
+                        }
+                    }
+                }
+            }
+            for x in &amounts {
                 if *x < k.min_stake {
                     continue;
                 }
@@ -549,7 +603,7 @@ pub fn run_c11_grid(r: &mut Runner, thorough: bool) {
         18_446_744_073_709_551_615, 18_446_744_073_709_551_617, 25_000_000_000_000_054_321, (1 << 70) + 7, (1 << 96) - 12_345,
         999_999_999_999_999_999_999_999_999, 1_000_000_000_000_000_000_000_000_000,
     ];
-    let rates: Vec<u128> = vec![0, 1, 9_999, 10_000, 33_333, 99_999, 100_000, 100_001, 150_000, 1_000_000];
+    let rates: Vec<u128> = vec![0, 1, 2_500, 5_000, 9_999, 10_000, 33_333, 99_999, 100_000, 100_001, 150_000, 1_000_000];
     let k = K::k4();
     let big_seed = |k: &K| -> Sim {
         // totals large enough that a reward of 10^27 keeps the exchange rate inside [1e-3, 1e3]
@@ -583,7 +637,21 @@ pub fn run_c11_grid(r: &mut Runner, thorough: bool) {
                 ));
                 assert!(ap.out.ok, "fee config update failed: {:?}", ap.out.err);
                 let st = s.w.state();
-                for reward in &rewards_menu {
+                // rewards chosen from the rate: those whose product with the fee rate sits on either side of
+                // a machine-word boundary (a fast path, a narrowing cast or an intermediate overflow would
+                // change behaviour exactly there), besides the fixed menu
+                let mut rewards_here = rewards_menu.clone();
+                if *rate > 0 {
+                    for b in [1u128 << 32, 1 << 53, 1 << 63, 1 << 64, 1 << 96, 1 << 127, u128::MAX] {
+                        let q = b / *rate;
+                        for d in [q.saturating_sub(1), q, q.saturating_add(1), q.saturating_add(q / 8)] {
+                            if d >= 1 && d <= 1_000_000_000_000_000_000_000_000_000 && !rewards_here.contains(&d) {
+                                rewards_here.push(d);
+                            }
+                        }
+                    }
+                }
+                for reward in &rewards_here {
                     // stay inside the exchange-rate window of C16 (the reward is added to the staked total)
                     let (n, l) = (st.total_native_token.u128(), st.total_liquid_stake_token.u128());
                     if l > 0 && n + reward > l.saturating_mul(1000) {
